@@ -24,6 +24,12 @@ def run(tier):
             p.args = ["--dev", "2", "--initial-cancel", "1"]
             p.label += "/dev2"
         progs += d2
+        # pairs of requests (no callback deviations) on the programs with two composite prongs / deep nesting under an orthogonal region
+        b2 = en.curated(names=["orthopair", "orthodeep", "orthoroot"])
+        for p in b2:
+            p.args = ["--batch", "2", "--dev", "0"]
+            p.label += "/batch2"
+        progs += b2
     if thorough:
         # program families: all ordered trees with <= 4 states and the spine family (kind chains of depth 3 / 4), d = 1, single requests
         fam = en.systematic(4) + en.spines()
